@@ -58,6 +58,25 @@ class Env:
         return self.comps[name]
 
 
+def arith(env, t):
+    """'nat', 'Z' or None: how values of type t are computed with"""
+    if t == ('nat',):
+        return 'nat'
+    if t[0] in env.T.table and env.T.table[t[0]].get('arith') == 'Z':
+        return 'Z'
+    return None
+
+
+def coerce2(env, a, ta, b, tb):
+    """mixed nat / Z operands: the nat side is injected into Z (Python ints are unbounded)"""
+    ka, kb = arith(env, ta), arith(env, tb)
+    if ka == 'Z' and kb == 'nat':
+        return a, ta, 'Z.of_nat %s' % par(b), ta
+    if ka == 'nat' and kb == 'Z':
+        return 'Z.of_nat %s' % par(a), tb, b, tb
+    return a, ta, b, tb
+
+
 def is_obj(env, node):
     return isinstance(node, ast.Name) and node.id in env.mod.obj_names and node.id not in env.vars
 
@@ -74,8 +93,10 @@ def truth(env, node):
     txt, t = expr(env, node)
     if t == ('bool',):
         return txt
-    if t[0] in ('list', 'set', 'dict'):
+    if t[0] in ('list', 'set', 'dict', 'zdict'):
         return 'negb (lnull %s)' % par(txt)
+    if t[0] in env.T.table and 'truth' in env.T.table[t[0]]:
+        return env.T.table[t[0]]['truth'].format(par(txt))
     raise Unsupported(node, 'truth value of a %s' % t[0])
 
 
@@ -118,6 +139,8 @@ def expr(env, node, expect=None):
                 return 'None', expect
             if expect and 'none' in T.base(expect):
                 return T.base(expect)['none'], expect
+            if expect is None:
+                return 'None', ('none',)          # unified with the other branches by the caller
             raise Unsupported(node, 'None where the expected type %s has no None representation' % (expect,))
         raise Unsupported(node, 'constant %r' % (v,))
     if isinstance(node, ast.Name):
@@ -142,7 +165,9 @@ def expr(env, node, expect=None):
             vt = t
             items.append('(%s, %s)' % (cstr(k.value), vtxt))
         if vt is None:
-            raise Unsupported(node, 'empty dict literal')
+            if expect and expect[0] in ('dict', 'zdict'):
+                return '[]', expect
+            raise Unsupported(node, 'empty dict literal whose type is not declared in the signature file')
         return '[%s]' % '; '.join(items), ('dict', vt)
     if isinstance(node, ast.UnaryOp) and isinstance(node.op, ast.Not):
         txt, t = expr(env, node.operand)
@@ -166,6 +191,8 @@ def expr(env, node, expect=None):
         return call(env, node)
     if isinstance(node, ast.ListComp):
         return listcomp(env, node)
+    if isinstance(node, ast.DictComp):
+        return dictcomp(env, node)
     raise Unsupported(node, 'expression %s is outside the supported subset' % type(node).__name__)
 
 
@@ -225,6 +252,10 @@ def compare(env, node):
                 res = 'dmem %s %s' % (par(dtxt), par(ktxt))
             elif dt == ('list', ('str',)) and kt == ('str',):
                 res = 'smem %s %s' % (par(ktxt), par(dtxt))
+            elif dt[0] == 'zdict' and kt == ('int',):
+                res = 'zdmem %s %s' % (par(dtxt), par(ktxt))
+            elif dt[0] in ('set', 'list') and dt[1] == ('int',) and kt == ('int',):
+                res = 'zmem %s %s' % (par(ktxt), par(dtxt))
             else:
                 raise Unsupported(node, '`in` with a %s on the right' % dt[0])
         return (res if isinstance(op, ast.In) else 'negb (%s)' % res), ('bool',)
@@ -236,11 +267,14 @@ def compare(env, node):
                                                                      'false' if nt[1] else 'true'), ('bool',)
         raise Unsupported(node, '`is` other than a None test on an optional local')
     a, ta = expr(env, l)
-    b, tb = expr(env, r)
+    b, tb = expr(env, r, ta)
+    a, ta, b, tb = coerce2(env, a, ta, b, tb)
     if ta != tb:
         raise Unsupported(node, 'comparison between %s and %s' % (ta[0], tb[0]))
     if ta == ('nat',):
         return NAT_CMP[type(op)].format(par(a), par(b)), ('bool',)
+    if arith(env, ta) == 'Z' and not isinstance(op, (ast.Eq, ast.NotEq)):
+        return NAT_CMP[type(op)].replace('Nat.', 'Z.').format(par(a), par(b)), ('bool',)
     if isinstance(op, (ast.Eq, ast.NotEq)):
         e = '%s %s %s' % (env.T.eqb(ta, node), par(a), par(b))
         return (e if isinstance(op, ast.Eq) else 'negb (%s)' % e), ('bool',)
@@ -249,7 +283,11 @@ def compare(env, node):
 
 def binop(env, node):
     a, ta = expr(env, node.left)
-    b, tb = expr(env, node.right)
+    b, tb = expr(env, node.right, ta)
+    a, ta, b, tb = coerce2(env, a, ta, b, tb)
+    if ta == tb and arith(env, ta) == 'Z' and isinstance(node.op, (ast.Add, ast.Sub, ast.Mult)):
+        sym = {ast.Add: '+', ast.Sub: '-', ast.Mult: '*'}[type(node.op)]
+        return '(%s %s %s)%%Z' % (par(a), sym, par(b)), ta
     if ta == tb == ('nat',):
         if isinstance(node.op, ast.Add):
             if b == '1':
@@ -309,17 +347,29 @@ def subscript(env, node):
     d, dt = expr(env, node.value)
     if isinstance(node.slice, ast.Slice):
         sl = node.slice
-        if dt[0] != 'list' or sl.lower is not None or sl.step is not None or sl.upper is None:
-            raise Unsupported(node, 'slice other than a[:n] of a list')
+        if dt[0] != 'list' or sl.step is not None:
+            raise Unsupported(node, 'slice of a %s / with a step' % dt[0])
+        if sl.lower is None and sl.upper is None:
+            return d, dt                        # a[:] is a copy; values are immutable in the model
+        if sl.upper is None:
+            raise Unsupported(node, 'slice a[s:] without an upper bound')
         n, nt = expr(env, sl.upper)
         if nt != ('nat',):
             raise Unsupported(node, 'slice bound of type %s' % nt[0])
-        return 'firstn %s %s' % (par(n), par(d)), dt
+        if sl.lower is None:
+            return 'firstn %s %s' % (par(n), par(d)), dt
+        lo, lt = expr(env, sl.lower)
+        if lt != ('nat',):
+            raise Unsupported(node, 'slice bound of type %s' % lt[0])
+        return 'slice %s %s %s' % (par(d), par(lo), par(n)), dt
     k, kt = expr(env, node.slice)
     if dt[0] == 'dict' and kt == ('str',):
         return getd(env, d, k, dt[1], node), dt[1]
     if dt[0] == 'list' and kt == ('nat',):
         return 'nth %s %s %s' % (par(k), par(d), env.T.default(dt[1], node)), dt[1]
+    if dt[0] == 'zdict' and kt == ('int',):
+        env.mod.note_read(node, False)
+        return 'match zdget %s %s with Some v => v | None => %s end' % (par(d), par(k), env.T.default(dt[1], node)), dt[1]
     raise Unsupported(node, 'subscript of a %s by a %s' % (dt[0], kt[0]))
 
 
@@ -389,7 +439,7 @@ def call(env, node):
             a, t = expr(env, node.args[0])
             if t == ('sized',):
                 return a, ('nat',)
-            if t[0] in ('list', 'set', 'dict'):
+            if t[0] in ('list', 'set', 'dict', 'zdict'):
                 return 'List.length %s' % par(a), ('nat',)
             raise Unsupported(node, 'len of a %s' % t[0])
         if fn.id == 'set' and len(node.args) == 1:
@@ -473,6 +523,21 @@ def listcomp(env, node):
     return 'map (fun %s => %s) %s' % (pat, body, par(src)), ('list', bt)
 
 
+def dictcomp(env, node):
+    """{k: v for pat in it}: insertion in iteration order (a later equal key overwrites)"""
+    if len(node.generators) != 1 or node.generators[0].is_async or node.generators[0].ifs:
+        raise Unsupported(node, 'dict comprehension with more than one generator or a filter')
+    g = node.generators[0]
+    it, et = iterable(env, g.iter)
+    inner = env.fork()
+    pat = bind_target(inner, g.target, et)
+    k, kt = expr(inner, node.key)
+    v, vt = expr(inner, node.value)
+    if kt != ('int',):
+        raise Unsupported(node, 'dict comprehension with keys of type %s' % kt[0])
+    return 'fold_left (fun d %s => zdset d %s %s) %s []' % (pat, par(k), par(v), par(it)), ('zdict', vt)
+
+
 def iterable(env, node):
     """what a `for` / comprehension iterates over -> (list text, element type)"""
     if isinstance(node, ast.Call) and isinstance(node.func, ast.Name) and node.func.id == 'range' \
@@ -484,6 +549,10 @@ def iterable(env, node):
             return 'seq 0 %s' % par(args[0][0]), ('nat',)
         env.mod.assume(node, 'range(a, b) is seq a (b - a): empty when b <= a, as in Python')
         return 'seq %s (%s - %s)' % (par(args[0][0]), par(args[1][0]), par(args[0][0])), ('nat',)
+    if isinstance(node, ast.Call) and isinstance(node.func, ast.Name) and node.func.id == 'enumerate' \
+            and 'enumerate' not in env.vars and not node.keywords and len(node.args) == 1:
+        l, lt = iterable(env, node.args[0])
+        return 'combine (seq 0 (List.length %s)) %s' % (par(l), par(l)), ('tuple', ('nat',), lt)
     txt, t = expr(env, node)
     if t[0] == 'dict':
         return 'dkeys %s' % par(txt), ('str',)
